@@ -176,16 +176,18 @@ Variable cfg : tnames.
    formatting is reachable *)
 Variable half_eq_float : bool.
 
-(** translate_adcc_names *)
+(** translate_adcc_names:  base = name.split("_")[0]  is compared with the
+    ERI / Fock name *)
+Definition name_base (name : string) : string := hd "" (split_on "_"%char name).
 Definition translate_adcc (name : string) (idx : list index) : string :=
-  if prefix (n_eri cfg) name then "hf." ++ space_str idx
-  else if prefix (n_fock cfg) name then "hf.f" ++ space_str idx
+  if String.eqb (name_base name) (n_eri cfg) then "hf." ++ space_str idx
+  else if String.eqb (name_base name) (n_fock cfg) then "hf.f" ++ space_str idx
   else name.
 
 (** translate_libadc_names;  `_, n = name.split("_")` raises ValueError unless
     there are exactly two parts *)
 Definition translate_libadc (name : string) (idx : list index) : res string :=
-  if prefix (n_eri cfg) name then Ok ("i_" ++ space_str idx)
+  if String.eqb (name_base name) (n_eri cfg) then Ok ("i_" ++ space_str idx)
   else if prefix "t2eri" name then
     match split_on "_"%char name with
     | [_; n] => Ok ("pi" ++ n)
@@ -212,6 +214,11 @@ Fixpoint icount (x : index) (l : list index) : nat :=
 Definition partial_trace (con idx : list index) : bool :=
   existsb (fun x => imem x con && Nat.ltb 1 (icount x idx)) idx.
 
+(* einsum: an index of the object has a name that is not a single letter
+   (numpy subscripts are single letters) -> NotImplementedError *)
+Definition multi_letter (idx : list index) : bool :=
+  existsb (fun x => negb (Nat.eqb (String.length (iname x)) 1)) idx.
+
 (* the loop body of format_contraction: returns the string standing for the
    operand and whether it is a tensor (has indices) *)
 Definition format_operand (be : backend) (cache : list (string * cexpr)) (con : list index)
@@ -220,7 +227,8 @@ Definition format_operand (be : backend) (cache : list (string * cexpr)) (con : 
   if is_contraction name then
     match lookup name cache with Some e => Ok e | None => Crash end
   else match be with
-       | Einsum => Ok (CName (translate_adcc name idx))
+       | Einsum => if multi_letter idx then Refuse
+                   else Ok (CName (translate_adcc name idx))
        | Libtensor =>
            if partial_trace con idx then Refuse
            else do n <- translate_libadc name idx ;; Ok (CLab n (map iname idx))
@@ -325,27 +333,22 @@ Definition format_cpp_num (a : numarg) : res pfac :=
   | NOther => Refuse
   end.
 
-(** format_prefactor.  syms: for every Symbol object of the term the value of
-    obj.name (None on the current tree, because Obj.name is only defined for
-    tensors) and its exponent.  " * ".join over a list containing None raises
-    TypeError, and it is evaluated before the number is formatted. *)
-Fixpoint sym_names (syms : list (option string * nat)) : res (list pfac) :=
+(** format_prefactor.  syms: for every Symbol object of the term str(obj.base)
+    and its exponent (range(exponent): nothing for exponents <= 0). *)
+Fixpoint sym_names (syms : list (string * nat)) : list pfac :=
   match syms with
-  | [] => Ok []
-  | (None, O) :: r => sym_names r
-  | (None, S _) :: _ => Crash
-  | (Some s, n) :: r => do ys <- sym_names r ;; Ok (repeat (FSym s) n ++ ys)%list
+  | [] => []
+  | (s, n) :: r => (repeat (FSym s) n ++ sym_names r)%list
   end.
 Definition format_prefactor (be : backend) (nums : list numarg)
-           (syms : list (option string * nat)) : res (list pfac) :=
-  do sy <- sym_names syms ;;
+           (syms : list (string * nat)) : res (list pfac) :=
   do nu <- rmap (match be with Einsum => format_python_num | Libtensor => format_cpp_num end) nums ;;
-  Ok (nu ++ sy)%list.
+  Ok (nu ++ sym_names syms)%list.
 
 (** one term as seen by generate_code *)
 Record cterm := CTerm { ct_neg : bool;                          (* term.prefactor < 0 *)
                         ct_nums : list numarg;
-                        ct_syms : list (option string * nat);
+                        ct_syms : list (string * nat);
                         ct_hasidx : bool;                       (* bool(term.idx) *)
                         ct_objspaces : list (list space);
                         ct_scheme : res (list cstep) }.          (* result of the scheme search *)
